@@ -317,6 +317,33 @@ func runEnc(c EncCase) (string, encStats) {
 			}
 			exps = append(exps, exp{name, w})
 		}
+		// the raw receiver renders the type names itself (from the trailing type strings): whatever the
+		// attribute lines hold, the full parser must read exactly the sender's names back from those lines
+		for _, ty := range []struct{ attr, v string }{{"MyType", c.MyType}, {"TargetType", c.TgtType}} {
+			if ty.v == "" || ty.v == "=5" {
+				continue
+			}
+			found := false
+			for _, line := range strings.Split(raw, "\n") {
+				eq := strings.Index(line, "=")
+				if eq < 0 || !strings.EqualFold(strings.TrimSpace(line[:eq]), ty.attr) {
+					continue
+				}
+				found = true
+				w, perr := classad.ParseExpr(line[eq+1:])
+				if perr != nil {
+					return fmt.Sprintf("%s: raw receiver rendered type name %q as %q, which the full parser rejects: %v", tag, ty.v, line, perr), st
+				}
+				tmp := classad.New()
+				tmp.InsertExpr("T", w)
+				if sv, ok := tmp.EvaluateAttrString("T"); !ok || sv != ty.v {
+					return fmt.Sprintf("%s: raw receiver rendered type name %q as %q, which the full parser reads as %q", tag, ty.v, line, sv), st
+				}
+			}
+			if !found {
+				return fmt.Sprintf("%s: raw receiver lost the sender's %s %q", tag, ty.attr, ty.v), st
+			}
+		}
 		if err != nil {
 			if parserRejects {
 				continue // the library rendered text its own parser rejects: outside the statement
@@ -369,7 +396,9 @@ func runEnc(c EncCase) (string, encStats) {
 	return "", st
 }
 
-var typeNames = []string{"", "", "Machine", "Job", "Scheduler", "=5", "DaemonMaster", "x"}
+// type names: the usual identifiers, plus names the type-name rule also admits (anything without '=', quote,
+// backslash or line break, up to 128 bytes): printable non-ASCII text, blanks and punctuation
+var typeNames = []string{"", "", "Machine", "Job", "Scheduler", "=5", "DaemonMaster", "x", "Mäschine", "作业-Ω", "Sched uler", "a.b-c_d:e/f(g)", "Jöb"}
 
 func genEnc(t *rapid.T) EncCase {
 	c := EncCase{AES: rapid.Bool().Draw(t, "aes"), Sender: rapid.IntRange(0, 3).Draw(t, "sender"),
